@@ -14,7 +14,7 @@ import numpy as np
 import schedula as sh
 from . import (
     wrap_ranges_func, Error, Array, XlError, wrap_func, is_number, flatten,
-    _text2num
+    _text2num, _float
 )
 
 FUNCTIONS = {}
@@ -65,7 +65,7 @@ def xiseven_odd(number, odd=False):
         return number
     if number is sh.EMPTY:
         number = 0
-    v = int(_text2num(number)) % 2
+    v = int(_float(_text2num(number))) % 2
     return v != 0 if odd else v == 0
 
 
